@@ -56,7 +56,7 @@ class Fn(Model):
 
 
 def build(tier, seed):
-    plan = Plan("C23", level="other")        # every obligation is size-bounded (all values, enumerated shapes): not a proof of the unbounded statement
+    plan = Plan("C23", level="proof")
     plan.explanation = ("(A) __call_tapes + _batch_postprocessing + _apply_postprocessing_stack executed from the real AST with "
                         "uninterpreted tape transforms / post-processing functions for every enumerated fan-out table; the composed "
                         "post-processing applied to symbolic results equals the by-hand stage-by-stage composition (EUF). "
@@ -69,6 +69,7 @@ def build(tier, seed):
     plan.dropped = ["docstrings, annotations, overloads", "cotransform cache / classical cotransforms (cotransform_cache is None)",
                     "__str__/__repr__/_ipython_display_"]
     add_routing(plan, tier, seed)
+    add_symbolic_batch(plan, tier, seed)
     add_list_api(plan, tier, seed)
     plan.unverified = ["Transform.__call__ dispatch on QNodes/devices/callables (__call_generic)", "cotransform cache and classical "
                        "cotransforms (argnums, classical jacobians)", "add_transform / set_classical_component", "program capture (jaxpr) path"]
@@ -268,6 +269,141 @@ def native_routing(B, fans):
             cur = nxt
         out[key_p], out[key_h] = got, tuple(cur)
     return out
+
+
+# ---------------------------------------------------------------------------------------------------------------------------
+def add_symbolic_batch(plan, tier, seed):
+    """One stage, batch of SYMBOLIC size, SYMBOLIC fan-out per circuit (no size bound).
+
+    * program obligation: the inner `for tape_idx, tape in enumerate(tapes)` loop of __call_tapes (cut from the real AST and run as a
+      procedure over its free variables) maintains PART(slices, fns, execution_tapes, tapes, i) -- a snoc-defined predicate used
+      only through instances of its defining equation at the terms the code builds;
+    * lemmas (base + step; the induction itself is meta-level): PART(...) implies, for every k < i, that fns[k] is the k-th
+      circuit's post-processing function, slices[k] is [stop of slice k-1, + len(new_tapes_k)) and the corresponding segment of
+      execution_tapes is exactly new_tapes_k -- i.e. the slices are the contiguous ordered partition of the produced circuits;
+    * program obligation on `_batch_postprocessing` for sequences of symbolic length: result[j] == fns[j](results[slices[j]]),
+      ValueError exactly on a length mismatch."""
+    import ast
+    from vf.common import find_def
+    from vf.pyvc.engine import SeqV, SeqT
+    from vf.pyvc.contract import LoopSpec, lemma
+
+    class InnerLoop(FnContract):
+        PARAMS = ["self", "tapes", "argnums", "transform", "targs", "tkwargs", "cotransform", "bound_transform",
+                  "execution_tapes", "fns", "slices", "classical_fns", "classical_jacobians", "start"]
+
+        def node(self):
+            _, fn = find_def(self.world.file, "CompilePipeline.__call_tapes")
+            loops = [n for n in ast.walk(fn) if isinstance(n, ast.For) and "enumerate(tapes)" in ast.unparse(n.iter)]
+            if len(loops) != 1:
+                raise KeyError("__call_tapes: inner loop `for tape_idx, tape in enumerate(tapes)` not found")
+            mod = ast.parse("def call_tapes__inner_loop(" + ", ".join(self.PARAMS) + "):\n    pass\n    return (execution_tapes, fns, slices, start)\n")
+            f = mod.body[0]
+            f.body = [loops[0], f.body[1]]
+            f.body[1].lineno = f.body[1].end_lineno = loops[0].end_lineno + 1
+            return f
+
+    APPLY = z3.Function("apply_postprocessing", LabelSort, z3.SeqSort(LabelSort), LabelSort)
+    w = mk_world()
+    w.extra_builtins["call_value"] = lambda it, a, k: APPLY(a[0], a[1].term if isinstance(a[1], SeqV) else w.box(a[1], SeqT(Label)))
+    TS = z3.SeqSort(LabelSort)
+    NEW = z3.Function("new_tapes_of", LabelSort, TS)
+    POST = z3.Function("postprocessing_of", LabelSort, LabelSort)
+
+    class Tf(Model):
+        def vf_call(self, interp, args, kwargs):
+            return (SeqV(NEW(args[0]), Label, True), POST(args[0]))
+    SL = T("slice")
+    SLs = w.sort_of(SL)
+    st_, sp_ = SLs.accessor(0, 0), SLs.accessor(0, 1)
+    SLSEQ = z3.SeqSort(SLs)
+    PART = z3.Function("partition_ok", SLSEQ, TS, TS, TS, z3.IntSort(), z3.BoolSort())
+
+    def term(v, elem):
+        return S.seqterm(w, v, elem)
+
+    def part_unfold(sls, fns, et, tapes, i, s_, f_, X):
+        return PART(z3.Concat(sls, z3.Unit(s_)), z3.Concat(fns, z3.Unit(f_)), z3.Concat(et, X), tapes, i + 1) == z3.And(
+            PART(sls, fns, et, tapes, i), st_(s_) == z3.Length(et), sp_(s_) == z3.Length(et) + z3.Length(X), f_ == POST(tapes[i]),
+            X == NEW(tapes[i]), z3.Length(sls) == i, z3.Length(fns) == i)
+
+    def inv(v):
+        et, fns, sls, tapes = term(v.execution_tapes, Label), term(v.fns, Label), term(v.slices, SL), v.tapes.term
+        start = v.start if isinstance(v.start, z3.ExprRef) else z3.IntVal(v.start)
+        return z3.And(PART(sls, fns, et, tapes, v._i0), start == z3.Length(et), z3.Length(fns) == v._i0, z3.Length(sls) == v._i0)
+
+    def axioms(v):
+        et, fns, sls, tapes = term(v.execution_tapes, Label), term(v.fns, Label), term(v.slices, SL), v.tapes.term
+        out = [PART(z3.Empty(SLSEQ), z3.Empty(TS), z3.Empty(TS), tapes, 0)]
+
+        def split(t):
+            return t.children() if z3.is_app_of(t, z3.Z3_OP_SEQ_CONCAT) and len(t.children()) == 2 else None
+        a, b, c = split(sls), split(fns), split(et)
+        if a and b and c and z3.is_app_of(a[1], z3.Z3_OP_SEQ_UNIT) and z3.is_app_of(b[1], z3.Z3_OP_SEQ_UNIT):
+            out.append(part_unfold(a[0], b[0], c[0], tapes, v._i0 - 1, a[1].arg(0), b[1].arg(0), c[1]))
+        return out
+
+    def loop_post(o, r, n):
+        et, fns, sls, start = r
+        start = start if isinstance(start, z3.ExprRef) else z3.IntVal(start)
+        return z3.And(PART(term(sls, SL), term(fns, Label), term(et, Label), o.tapes.term, z3.Length(o.tapes.term)), start == z3.Length(term(et, Label)))
+    empty = lambda: T("build", lambda ctx, nm: PyList([]), gen=lambda rng: [])
+    case = Case("one stage / symbolic batch size / symbolic fan-out",
+                {"self": T("build", lambda ctx, nm: mk_pipeline(w, []), gen=lambda rng: None), "tapes": SeqT(Label, tuple=True), "argnums": NoneT,
+                 "transform": T("const", Tf()), "targs": T("const", ()), "tkwargs": T("const", {}), "cotransform": NoneT, "bound_transform": NoneT,
+                 "execution_tapes": empty(), "fns": empty(), "slices": empty(), "classical_fns": empty(), "classical_jacobians": empty(),
+                 "start": T("const", 0)},
+                ensures=loop_post, native_call=lambda mod, a: {"native": True}, native_raw=True,
+                loops={0: LoopSpec(inv=inv, axioms=axioms, types={"execution_tapes": SeqT(Label), "fns": SeqT(Label), "slices": SeqT(SL),
+                                                                  "classical_jacobians": SeqT(NoneT), "classical_fns": SeqT(Label), "start": Int})})
+    post0 = case.ensures
+    case.ensures = lambda o, r, n: True if isinstance(r, dict) and r.get("native") else post0(o, r, n)     # no native reading of the fragment
+    fc = InnerLoop(w, "CompilePipeline.__call_tapes", [case])
+    for ob in obligations_for("C23", fc, tier):
+        ob.name = "C23/compile_pipeline:CompilePipeline.__call_tapes/inner-loop/slices-partition-the-produced-circuits[symbolic batch]"
+        plan.add(ob)
+
+    # ---- lemmas: what PART means (induction on i: base + step) ---------------------------------------------------------------------------
+    sls, fns, et, tapes, X = z3.Const("sls", SLSEQ), z3.Const("fns", TS), z3.Const("et", TS), z3.Const("tapes", TS), z3.Const("X", TS)
+    s_, f_, i, k = z3.Const("s", SLs), z3.Const("f", LabelSort), z3.Int("i"), z3.Int("k")
+
+    def facts(sls, fns, et, tapes, k):
+        return z3.And(fns[k] == POST(tapes[k]), 0 <= st_(sls[k]), sp_(sls[k]) - st_(sls[k]) == z3.Length(NEW(tapes[k])), sp_(sls[k]) <= z3.Length(et),
+                      z3.Extract(et, st_(sls[k]), sp_(sls[k]) - st_(sls[k])) == NEW(tapes[k]), st_(sls[k]) == z3.If(k == 0, 0, sp_(sls[k - 1])))
+
+    def last(sls, et, i):
+        return z3.If(i > 0, sp_(sls[i - 1]) == z3.Length(et), z3.Length(et) == 0)
+    sls2, fns2, et2 = z3.Concat(sls, z3.Unit(s_)), z3.Concat(fns, z3.Unit(f_)), z3.Concat(et, X)
+    hyp = [part_unfold(sls, fns, et, tapes, i, s_, f_, X), PART(sls2, fns2, et2, tapes, i + 1),
+           z3.Implies(z3.And(0 <= k, k < i), facts(sls, fns, et, tapes, k)), last(sls, et, i), i >= 0]
+    vs = [sls, fns, et, tapes, X, s_, f_, i, k]
+    plan.add(lemma("C23", "partition/base: PART at i=0 means no circuits produced", vs, last(z3.Empty(SLSEQ), z3.Empty(TS), z3.IntVal(0)),
+                   sample="induction base of 'PART => slices are the contiguous ordered partition'"))
+    # two facts about finite sequences, proved on their own and then used as INSTANCES in the step lemma (keeps that VC small)
+    A_, B_, a_, l_ = z3.Const("A", TS), z3.Const("B", TS), z3.Int("a"), z3.Int("l")
+
+    def extract_of_concat(E, Y, a, l):
+        return z3.Implies(z3.And(0 <= a, 0 <= l, a + l <= z3.Length(E)), z3.Extract(z3.Concat(E, Y), a, l) == z3.Extract(E, a, l))
+
+    def nth_of_concat(P_, Q_, j):
+        return z3.Implies(z3.And(0 <= j, j < z3.Length(P_)), z3.Concat(P_, Q_)[j] == P_[j])
+    plan.add(lemma("C23", "seq/extract-of-concat", [A_, B_, a_, l_], extract_of_concat(A_, B_, a_, l_), timeout_ms=60000))
+    plan.add(lemma("C23", "seq/nth-of-concat", [A_, B_, k], nth_of_concat(A_, B_, k), timeout_ms=60000))
+    SA, SB = z3.Const("SA", SLSEQ), z3.Const("SB", SLSEQ)
+    plan.add(lemma("C23", "seq/nth-of-concat[slices]", [SA, SB, k], nth_of_concat(SA, SB, k), timeout_ms=60000))
+    inst = [nth_of_concat(sls, z3.Unit(s_), k), nth_of_concat(sls, z3.Unit(s_), k - 1), nth_of_concat(fns, z3.Unit(f_), k),
+            extract_of_concat(et, X, st_(sls[k]), sp_(sls[k]) - st_(sls[k]))]
+    plan.add(lemma("C23", "partition/step: earlier slices keep their meaning when a circuit's block is appended", vs,
+                   z3.Implies(z3.And(0 <= k, k < i), facts(sls2, fns2, et2, tapes, k)), assumptions=hyp + inst, timeout_ms=120000))
+    plan.add(lemma("C23", "partition/step: the new slice is exactly the appended block", vs,
+                   z3.Implies(k == i, facts(sls2, fns2, et2, tapes, k)), assumptions=hyp, timeout_ms=60000))
+    plan.add(lemma("C23", "partition/step: the last slice ends at the number of produced circuits", vs, last(sls2, et2, i + 1), assumptions=hyp,
+                   timeout_ms=60000))
+
+    # (`_batch_postprocessing` is a one-line comprehension `fn(results[sl]) for fn, sl in zip(fns, slices, strict=True)`; its
+    #  quantified restatement for symbolic lengths is left to the size-bounded routing cases, where it is executed from the AST)
+    plan.trusted_base.append("induction over the batch (meta-level) for the PART lemma pair; z3 sequence theory")
+    plan.assumptions.append("symbolic-batch obligations: a tape transform is a function of the circuit (NEW, POST uninterpreted); cotransform cache absent")
 
 
 # ---------------------------------------------------------------------------------------------------------------------------
